@@ -1,4 +1,5 @@
 From Coq Require Import List Arith Bool NArith.
+From JrV Require Import Gen.GenStack.
 From JrV Require Import C04.Model C04.Proofs C04.Properties C08.Model.
 Import ListNotations.
 Local Open Scope nat_scope.
@@ -13,3 +14,9 @@ Check C04_runaway_stopped_at_limit : forall k s, cur s <= C04.Model.max s ->
 Check C04_site_array_views_safe : forall v i, wf v -> get_impl v i <> None /\ len_impl v <> None.
 Check eq_refl : run (chain 2) (mkSt 0 3 0) = (Done, mkSt 0 3 3).
 Check eq_refl : run (chain 3) (mkSt 0 3 0) = (StackOverflow, mkSt 0 3 3).
+Check C04_model_is_translated_source :
+  (forall s, gen_check_depth (cur s) (C04.Model.max s)
+             = option_map (fun s' => (cur s', C04.Model.max s')) (enter s)) /\
+  (forall s, gen_guard_drop (cur s) (C04.Model.max s) = (cur (leave s), C04.Model.max (leave s))) /\
+  (forall n s, gen_limit n (cur s) (C04.Model.max s) = ((cur s, cur s + n), C04.Model.max s)) /\
+  (forall old c m, gen_limit_drop old c m = (c, old)).
